@@ -241,6 +241,37 @@ def two_signal_loop(n_limit: int, c0: int, watchers: int = 1, name: str = "twosi
     return {"spec": {"name": name, "nodes": nodes, "bind": {}}, "inputs": inputs, "ref": ref, "template": f"two-signal(watchers={watchers})"}
 
 
+def const_feed_loop(n_limit: int, c0: int, name: str = "cfeed"):
+    """`while count < N: count += 1; one = const(count); total = acc(total, one)`: the accumulator is fed by a body
+    node that produces an EQUAL value in every iteration. In the sequential loop it still runs once per iteration."""
+    nodes = [
+        {"k": "route", "name": "gate", "params": [{"n": "count"}], "targets": ["inc", "END"], "cond": ["lt", "count", n_limit], "then": "inc", "else": "END", "open": True},
+        {"k": "fn", "name": "inc", "params": [{"n": "count"}], "outs": ["count"], "beh": ["inc", "count"]},
+        {"k": "fn", "name": "const", "params": [{"n": "count"}], "outs": ["one"], "beh": ["const", 1]},
+        {"k": "fn", "name": "acc", "params": [{"n": "total"}, {"n": "one"}], "outs": ["total"], "beh": ["sum", "total", "one"]},
+    ]
+    inputs = {"count": c0, "total": 0}
+    trace = []
+    c, total = c0, 0
+    # `const` reads the seeded count, so it (and then `acc`) also runs once before the first decision takes effect
+    trace.append(("const", {"one": 1}))
+    total += 1
+    trace.append(("acc", {"total": total}))
+    while True:
+        trace.append(("gate", {}))
+        if not c < n_limit:
+            break
+        c += 1
+        trace.append(("inc", {"count": c}))
+        trace.append(("const", {"one": 1}))
+        total += 1
+        trace.append(("acc", {"total": total}))
+    vals = _fold(inputs, trace)
+    vals.setdefault("count", c0)
+    ref = {"trace": None, "values": vals, "counts": _counts(trace), "singleton_steps": False, "steps": len(trace), "mechanism": "equal-value-reproduction"}
+    return {"spec": {"name": name, "nodes": nodes, "bind": {}}, "inputs": inputs, "ref": ref, "template": "const-feed"}
+
+
 def nested_loop(n_limit: int, c0: int, body_len: int = 1, gate: str = "route", depth: int = 1):
     """T7: the counter loop wrapped as a nested graph inside a DAG: pre -> [loop] -> post."""
     inner = counter_loop(n_limit, c0 + 1, body_len, gate, name="inner")
